@@ -2024,6 +2024,24 @@ theorem connRequest_linkx {L X : Option Nat} {s : State} (c rid : Nat) (a : Atte
           | some e => exact h2
           | none => exact linkx_log h2 rfl rfl
 
+theorem connReject_linkx {L X : Option Nat} {s : State} (c : Nat) (h : LinkX L X s) :
+    LinkX L X (connReject s c).1 := by
+  unfold connReject
+  have hF := forget_linkx c h
+  generalize forgetClosedPending s c = sF at hF
+  dsimp only
+  split
+  · exact hF
+  · split
+    · exact hF
+    · exact setConn_http_linkx c _ hF (fun _ => ⟨rfl, rfl⟩)
+
+theorem connRequestH_linkx {L X : Option Nat} {s : State} (c rid : Nat) (a : Attempt) (bad : Bool) (h : LinkX L X s) :
+    LinkX L X (connRequestH s c rid a bad).1 := by
+  cases bad with
+  | false => exact connRequest_linkx c rid a h
+  | true => exact connReject_linkx c h
+
 /-- `getresponse()` = everything up to the construction of the response object, then the preload read -/
 theorem getResponse_split (s : State) (c k rid : Nat) (rc : ReqCfg) :
     getResponse s c k rid rc =
@@ -2945,10 +2963,10 @@ theorem makeRequest_link {A : Nat → Attempt → Prop} {s s' : State} {c rid : 
     (∀ r, out = .resp r → Link none s') ∧
     (∀ e, out = .exc e → Link none s' ∨ (Link (some c) s' ∧ SockInj s' ∧ ∀ u rt m, handleError u rt m e.cls ≠ .noCleanup)) := by
   rw [makeRequest_eq] at hm
-  have hcl := connRequest_linkx c rid a h
-  generalize hcr : connRequest s c rid a = res at hm hcl
+  have hcl := connRequestH_linkx c rid a rc.badHeader h
+  generalize hcr : connRequestH s c rid a rc.badHeader = res at hm hcl
   obtain ⟨s1, ek⟩ := res
-  obtain ⟨spE, spK⟩ := connRequest_spec p hl hcr
+  obtain ⟨spE, spK⟩ := connRequestH_spec p hl hcr
   dsimp only at hm hcl
   have tail : ∀ (k : Nat) (cn0 : Conn) (sk : Sock), Prov A s1 → s1.conns[c]? = some cn0 → cn0.sock = some k →
       s1.socks[k]? = some sk → ((∃ H, NoHd H ∧ sk.inbound = H ++ serverNow rid a) ∨ sk.inbound = []) →
@@ -3264,5 +3282,74 @@ theorem run_link (ops : List Op) (n : Nat) (b pr : Bool) (hn : ∀ op ∈ ops, N
   refine run_link_gen (A := Scripted ops) ops _ (init_prov _ n b pr) (init_link n b pr) ?_ hn
   intro op hm rid rc rt script he a ha
   exact ⟨rc, rt, script, he ▸ hm, ha⟩
+
+/-! ### a request rejected between `putrequest()` and `endheaders()` (`ReqCfg.badHeader`) -/
+
+theorem connReject_out (s : State) (c : Nat) : ∃ e, (connReject s c).2 = .error e ∧ sendSwallowed e = false := by
+  unfold connReject
+  generalize forgetClosedPending s c = t
+  dsimp only
+  split
+  · exact ⟨_, rfl, by decide⟩
+  · split
+    · exact ⟨_, rfl, by decide⟩
+    · exact ⟨_, rfl, by decide⟩
+
+/-- on an idle connection object it is `putheader`'s `ValueError` -/
+theorem connReject_idle (s : State) (c : Nat) (cn : Conn) (hc : (forgetClosedPending s c).conns[c]? = some cn)
+    (hi : cn.http = .idle) : (connReject s c).2 = .error (exc Gen.cValueError) := by
+  unfold connReject
+  dsimp only
+  rw [hc]
+  dsimp only
+  rw [hi]
+  rfl
+
+theorem makeRequest_rejected_eq (s : State) (c rid : Nat) (a : Attempt) (rc : ReqCfg) (hb : rc.badHeader = true)
+    (e : Exc) (he : (connReject s c).2 = .error e) (hsw : sendSwallowed e = false) :
+    makeRequest s c rid a rc = ((connReject s c).1, .exc e) := by
+  rw [makeRequest_eq, hb]
+  have e0 : connRequestH s c rid a true = connReject s c := rfl
+  rw [e0, he]
+  simp [sendFix, makeTail, hsw]
+
+/-- `_make_request` for a request whose header block cannot be encoded: an exception, whatever the state -/
+theorem makeRequest_rejected (s : State) (c rid : Nat) (a : Attempt) (rc : ReqCfg) (hb : rc.badHeader = true) :
+    ∃ e, makeRequest s c rid a rc = ((connReject s c).1, .exc e) := by
+  obtain ⟨e, he, hsw⟩ := connReject_out s c
+  exact ⟨e, makeRequest_rejected_eq s c rid a rc hb e he hsw⟩
+
+/-- a `urlopen` call with such a header never returns a response — whatever the script, the retry budget and the
+state of the pool (a retried `CannotSendRequest` meets the same header again) -/
+theorem request_rejected (rid : Nat) : ∀ (script : List Attempt) (s : State) (rc : ReqCfg) (retries : Retry),
+    rc.badHeader = true → ∀ r, (request s rid rc retries script).2 ≠ .resp r := by
+  intro script
+  induction script with
+  | nil => intro s rc retries _ r h; cases h
+  | cons a rest ih =>
+    intro s rc retries hb r
+    have hhop : rc.hop.badHeader = true := hb
+    unfold request
+    split
+    · intro h; cases h
+    · split
+      · split
+        · intro h; cases h
+        · split <;> (intro h; cases h)
+        · split <;> (intro h; cases h)
+        · split
+          · intro h; cases h
+          · exact ih _ _ _ hhop r
+      · rename_i s1 c hg
+        obtain ⟨e, he⟩ := makeRequest_rejected s1 c rid a rc hb
+        rw [he]
+        dsimp only
+        split
+        · intro h; cases h
+        · split <;> (intro h; cases h)
+        · split <;> (intro h; cases h)
+        · split
+          · intro h; cases h
+          · exact ih _ _ _ hhop r
 
 end U3.Pool
